@@ -16,7 +16,8 @@ import (
 	refsql "github.com/wrgl/wrgl/pkg/ref/sql"
 )
 
-// SQLFaults lets a test see and fail the individual write statements (INSERT / UPDATE / DELETE /
+// SQLFaults lets a test see and fail the individual row reads (kind "row": every driver.Rows.Next
+// of any query, so a listing can fail after some of its rows were delivered) and the individual write statements (INSERT / UPDATE / DELETE /
 // REPLACE, also when issued through Query, e.g. DELETE ... RETURNING) and the COMMITs that wrgl's
 // SQL ref store sends to sqlite - a finer grain than the ref.Store methods: a fault can land
 // between two statements of one method. Gate is called before each of them; a non-nil result is
@@ -92,7 +93,25 @@ func (c *fconn) QueryContext(ctx context.Context, query string, args []driver.Na
 			return nil, err
 		}
 	}
-	return c.Conn.(driver.QueryerContext).QueryContext(ctx, query, args)
+	rows, err := c.Conn.(driver.QueryerContext).QueryContext(ctx, query, args)
+	if err != nil {
+		return nil, err
+	}
+	return &frows{Rows: rows, f: c.f, query: query}, nil
+}
+
+// frows fails row reads through the gate.
+type frows struct {
+	driver.Rows
+	f     *SQLFaults
+	query string
+}
+
+func (r *frows) Next(dest []driver.Value) error {
+	if err := r.f.gate("row", r.query); err != nil {
+		return err
+	}
+	return r.Rows.Next(dest)
 }
 
 func (c *fconn) PrepareContext(ctx context.Context, query string) (driver.Stmt, error) {
@@ -154,7 +173,11 @@ func (s *fstmt) QueryContext(ctx context.Context, args []driver.NamedValue) (dri
 			return nil, err
 		}
 	}
-	return s.Stmt.(driver.StmtQueryContext).QueryContext(ctx, args)
+	rows, err := s.Stmt.(driver.StmtQueryContext).QueryContext(ctx, args)
+	if err != nil {
+		return nil, err
+	}
+	return &frows{Rows: rows, f: s.f, query: s.query}, nil
 }
 
 type ftx struct {
